@@ -54,10 +54,14 @@ def PL.WF : PL → Prop
 end
 
 /-- what the decoder guarantees about one operator and the model does not check: `return` and
-    `unreachable` carry no immediates, and only the three branch operators carry labels -/
+    `unreachable` carry no immediates, only the three branch operators carry labels, and an operand
+    names one of the nine index spaces -/
+def entSpaces : List String := ["f", "t", "g", "m", "y", "x", "d", "e", "l"]
+
 def opClean (o : Op) : Prop :=
   ((o.name = "Return" ∨ o.name = "Unreachable") → o.args = []) ∧
-  (∀ n, Arg.ref "l" n ∈ o.args → o.name = "Br" ∨ o.name = "BrIf" ∨ o.name = "BrTable")
+  (∀ n, Arg.ref "l" n ∈ o.args → o.name = "Br" ∨ o.name = "BrIf" ∨ o.name = "BrTable") ∧
+  (∀ sp n, Arg.ref sp n ∈ o.args → sp ∈ entSpaces)
 
 mutual
 def PI.Clean : PI → Prop
